@@ -86,6 +86,10 @@ theorem widenCls_eq (v : PyVal) :
   | typ t => cases t <;> simp [widenCls, pyEq]
   | _ => simp [widenCls, pyEq, num?]
 
+/-- `x == n` and `n == x` for an int `n` (so `length.value == len(seq)` reads like `len(seq) == length.value`) -/
+theorem pyEq_comm_int (r : PyVal) (n : Int) : pyEq r (.int n) = pyEq (.int n) r := by
+  cases r <;> simp [pyEq, num?, numEq] <;> exact BEq.comm
+
 theorem numCmp_ne_un (a b : Int × Nat) : numCmp a b ≠ .un := by
   unfold numCmp
   simp only
